@@ -71,6 +71,12 @@ Theorem C03_loader_reads_exact_paths : forall info pol md c, is_leaf c = false -
 Proof. intros info pol md c. exact (loader_reads_exact_paths info pol md c). Qed.
 Print Assumptions C03_loader_reads_exact_paths.
 
+(* the same for EVERY debug mode - DebugTrail.ALL included - in terms of what [load] returns *)
+Theorem C03_load_reads_exact_paths : forall info pol md c d fs x, is_leaf c = false ->
+  load info pol md c d = Loaded fs x -> Forall2 (sourced info d) (leaves c) fs.
+Proof. exact load_reads_exact_paths. Qed.
+Print Assumptions C03_load_reads_exact_paths.
+
 (* ---- the dumper writes every field at that same path; a field directly in a mapping node is left out exactly when its
    sieve applies and its value equals its default; list gaps are None ---- *)
 Theorem C03_dumper_writes_exact_paths : forall value omit default c, wf c -> is_leaf c = false ->
@@ -81,6 +87,17 @@ Print Assumptions C03_dumper_writes_exact_paths.
 Theorem C03_list_gaps_are_None : forall value omit default, dump value omit default CNone = Some VNone.
 Proof. exact list_gaps_are_None. Qed.
 Print Assumptions C03_list_gaps_are_None.
+
+(* ---- round trip through the crown: loading what the dumper wrote gives back every field (and no extras), in DISABLE and
+   FIRST mode, under every extra policy, with omit_default in force - provided a sieve exists only for an optional field
+   and compares with the very default the loader supplies ---- *)
+Theorem C03_load_dump_roundtrip : forall info pol val omit default,
+  (forall i, omit i = true -> fi_required (info i) = false /\ fi_default (info i) = default i) ->
+  forall md c d, md <> All -> wf c -> is_leaf c = false ->
+  dump (fun i => Some (val i)) omit default c = Some d ->
+  load info pol md c d = Loaded (expected val c) [].
+Proof. exact load_dump_roundtrip. Qed.
+Print Assumptions C03_load_dump_roundtrip.
 
 (* ---- extras ---- *)
 Theorem C03_collect_delivers_exactly_the_unknown_items : forall info md m p d f0 f x,
